@@ -28,6 +28,10 @@ def validate_decoded(obj):
   elif isinstance(obj, list) or isinstance(obj, dict):
     string = encode(obj)
     validate_all_printable(string)
+    if json.loads(string) != obj:
+      raise gfapy.ValueError(
+        "{} cannot be represented as JSON without changing it\n".format(repr(obj))+
+        "(keys which are not strings, tuples, ...)")
   else:
     raise gfapy.TypeError(
       "the class {} is incompatible with the datatype\n"
@@ -35,14 +39,26 @@ def validate_decoded(obj):
       "(accepted classes: list, dict, gfapy.FieldArray)")
 
 def unsafe_encode(obj):
-  return json.dumps(obj)
+  return _dumps(obj)
+
+def _dumps(obj):
+  try:
+    return json.dumps(obj, allow_nan=False)
+  except ValueError as err:
+    raise gfapy.ValueError(
+      "{} cannot be represented as JSON\n".format(repr(obj))+
+      "error message: {}".format(str(err))) from err
+  except TypeError as err:
+    raise gfapy.TypeError(
+      "{} cannot be represented as JSON\n".format(repr(obj))+
+      "error message: {}".format(str(err))) from err
 
 def encode(obj):
   if isinstance(obj, str):
     validate_encoded(obj)
     return obj
   elif isinstance(obj, list) or isinstance(obj, dict):
-    string = json.dumps(obj)
+    string = _dumps(obj)
     validate_all_printable(string)
     return string
   else:
